@@ -169,6 +169,25 @@ theorem nodup_set {m : KMap} (k : Key) (c : CId) (h : (keys m).Nodup) : (keys (s
   unfold set
   exact nodup_ins k c (nodup_del k h) (fun hm => (mem_keys_del hm).2 rfl)
 
+theorem get_of_mem_nodup {m : KMap} {k : Key} {c : CId} (hm : (k, c) ∈ m) (hn : (keys m).Nodup) : get m k = some c := by
+  induction m with
+  | nil => cases hm
+  | cons a m ih =>
+    obtain ⟨ka, ca⟩ := a
+    have h' : ka ∉ keys m ∧ (keys m).Nodup := by simpa [keys] using hn
+    simp only [List.mem_cons] at hm
+    rcases hm with e | e
+    · cases e; simp [get]
+    · have hne : ¬ ka = k := by
+        intro e2; subst e2
+        exact h'.1 (by simp only [keys, List.mem_map]; exact ⟨(ka, c), e, rfl⟩)
+      simp only [get, hne, if_false]
+      exact ih e h'.2
+
+theorem get_of_mem_vals {m : KMap} {c : CId} (hc : c ∈ vals m) (hn : (keys m).Nodup) : ∃ k, get m k = some c := by
+  obtain ⟨k, hk⟩ := mem_vals hc
+  exact ⟨k, get_of_mem_nodup hk hn⟩
+
 end KMap
 
 namespace Sys
@@ -192,6 +211,15 @@ theorem ReachableR.reachable {S : Sys σ} {ok : σ → Tid → Prop} {s : σ} (h
 theorem reachable_of_run (S : Sys σ) (ts : List Tid) (h : (runStrict S S.init ts).isSome = true) :
     Reachable S ((runStrict S S.init ts).get h) :=
   reachable_runStrict S .init ts (Option.some_get h).symm
+
+theorem reachable_run (S : Sys σ) {s : σ} (h : Reachable S s) (ts : List Tid) : Reachable S (run S s ts) := by
+  induction ts generalizing s with
+  | nil => exact h
+  | cons t ts ih =>
+    simp only [run]
+    split
+    · next s1 h1 => exact ih (Reachable.step h h1)
+    · exact ih h
 
 /-- Invariant rule. -/
 theorem invariant {S : Sys σ} (I : σ → Prop) (h0 : I S.init)
